@@ -161,6 +161,16 @@ Theorem C16_roundtrip_text_ws : forall (D T : Type) (d0 : D) (print : D -> T) (p
   wf_obj D o -> wf_lines D o -> length sty = length (export_lines D T d0 print b o) ->
   import_text D T d0 parse ofZ b (render_ws T (combine (export_lines D T d0 print b o) sty)) = Some o.
 Proof. exact roundtrip_text_ws. Qed.
+(* INSIDE a line: tab / VT / FF next to the blank that separates two texts change nothing (after an integer or number text,
+   in every state of the pass); joining two texts without a blank they make ONE unreadable piece — the gap marker before
+   each of its texts (unreadable for readline() sites, skipped by np.fromfile, which reads the two values) *)
+Theorem C16_tab_next_to_blank : forall (T : Type) (st : bool) (p : nat) (t : token T) (k1 k2 : nat) (r : list (atom T)),
+  is_word T t = false ->
+  lex_aux T st p (ATok t :: repeat AOws k1 ++ ABlank :: repeat AOws k2 ++ r) = lex_aux T st p (ATok t :: ABlank :: r).
+Proof. exact lex_ows_next_to_blank. Qed.
+Theorem C16_tab_joins_texts : forall (T : Type) (t u : token T) (k : nat) (r : list (atom T)),
+  lex_aux T false 0 (ATok t :: repeat AOws (S k) ++ ATok u :: r) = gap T :: Some t :: gap T :: Some u :: lex_aux T true 0 r.
+Proof. exact lex_ows_glue. Qed.
 
 (* ---------------------------------------------------------------- ANY number format (Proofs/C16Fmt.v) *)
 (* import_data looks at a number text only through parse: parsing every number text of a file beforehand changes nothing *)
@@ -198,6 +208,8 @@ Print Assumptions C16_tokenise.
 Print Assumptions C16_roundtrip_text.
 Print Assumptions C16_tokenise_ws.
 Print Assumptions C16_roundtrip_text_ws.
+Print Assumptions C16_tab_next_to_blank.
+Print Assumptions C16_tab_joins_texts.
 Print Assumptions C16_import_parse_natural.
 Print Assumptions C16_roundtrip_any_format.
 
